@@ -62,7 +62,11 @@ Definition ill_posed_transform (tc : tcall (A:=QN)) : bool :=
    (negb (memP Outer (map fst (tc_coords tc))) ||
     match tc_target tc with
     | TBare bins => negb (qn_strictly (ltb QNOps) bins || qn_strictly (fun a b => ltb QNOps b a) bins)
-    | TArr _ => false
+    | TArr t => match dims t with
+                | [_] => let bins := tabulate t in
+                         negb (qn_strictly (ltb QNOps) bins || qn_strictly (fun a b => ltb QNOps b a) bins)
+                | _ => false
+                end
     end)).
 
 Definition ill_posed_ufunc (cs : case11) : bool :=
